@@ -13,6 +13,7 @@ EXPLANATION = (
     "clear re-allocates with the field's own len/element_bits. R11-growth-census: every growth operation (push/insert/extend) on "
     "a container field outside constructors is guarded by a capacity test against a configuration field, paired with a removal on "
     "the same path, followed by a size check that drains it, or the documented LossyCounter exception."
+    " TDigest's centroid bound is a function of the scale functions' n, so n_samples must be counted +1 per insert (R16-insert); CMSHeap's `paired with a removal` bound relies on C10's paired-update rule — both are applied here."
 )
 NOT_DECIDED = "that TDigest's centroids number O(delta) after a merge (C04's numeric clause); allocator slack and Vec growth factors"
 ASSUMPTIONS = ["IntVector::block_with_fill(bits, n, v) allocates n storage blocks", "FixedBitSet::with_capacity(n) allocates n bits", "vec![x; n] allocates n elements"]
